@@ -235,8 +235,9 @@ type opCtx struct {
 	pos    int
 	onDone func() // called once, on the first Done()
 	once   sync.Once
-	tagged bool // scheduled runs: hand the group a tkey
-	fast   bool // the caller-side Get of DoGet has been seen
+	tagged bool  // scheduled runs: hand the group a tkey
+	fast   bool  // the caller-side Get of DoGet has been seen
+	gid    int64 // scheduled runs: goroutine of the caller
 }
 
 func (c *opCtx) Deadline() (time.Time, bool) { return time.Time{}, false }
